@@ -137,7 +137,7 @@ fn main() {
         "vsock" => family_generic(&args, "vsock", |a| scen_vsock::all_params(a.extra.first().map(|s| s.as_str()).unwrap_or("random"), a.tier == "thorough", a.seed), |v| scen_vsock::VsParams::from_json(v), |p| p.to_json(), |p, sc| scen_vsock::run(p, sc)),
         "evq" => family_generic(&args, "evq", |a| scen_evq::all_params(a.tier == "thorough", a.seed), |v| scen_evq::EvqParams::from_json(v), |p| p.to_json(), |p, sc| scen_evq::run(p, sc)),
         "cmd" => family_generic(&args, "cmd", |a| scen_cmd::all_params(a.extra.first().map(|s| s.as_str()).unwrap_or("main"), a.tier == "thorough", a.seed), |v| scen_cmd::CmdParams::from_json(v), |p| p.to_json(), |p, sc| scen_cmd::run(p, sc)),
-        "adv" => family_generic(&args, "adv", |a| scen_adv::all_params(a.tier == "thorough", a.seed), |v| scen_adv::AdvParams::from_json(v), |p| p.to_json(), |p, sc| scen_adv::run(p, sc)),
+        "adv" => family_generic(&args, "adv", |a| scen_adv::all_params(a.extra.first().map(|s| s.as_str()).unwrap_or("adv"), a.tier == "thorough", a.seed), |v| scen_adv::AdvParams::from_json(v), |p| p.to_json(), |p, sc| scen_adv::run(p, sc)),
         "blk" => family_generic(&args, "blk", |a| scen_blk::all_params(a.tier == "thorough", a.seed), |v| scen_blk::BlkParams::from_json(v), |p| p.to_json(), |p, sc| scen_blk::run(p, sc)),
         f => {
             eprintln!("unknown family {f}");
